@@ -122,6 +122,27 @@ func newExplorer(P *Program, fn *ssa.Function, cfg Config) *Explorer {
 func (e *Explorer) Run() {
 	e.work = []pathSpec{{}}
 	var wg sync.WaitGroup
+	stopProgress := make(chan struct{})
+	defer close(stopProgress)
+	if e.cfg.Verbose || verbose {
+		go func() {
+			t := time.NewTicker(15 * time.Second)
+			defer t.Stop()
+			for {
+				select {
+				case <-stopProgress:
+					return
+				case <-t.C:
+					e.mu.Lock()
+					fmt.Fprintf(os.Stderr, "[symgo] %s: paths=%d done=%d queued=%d busy=%d solver: sat=%d unsat=%d unknown=%d intblast=%d (%.0fs)\n",
+						e.cfg.Harness, atomic.LoadInt64(&e.paths), e.pathsDone, len(e.work), e.busy,
+						atomic.LoadInt64(&gstats.Sat), atomic.LoadInt64(&gstats.Unsat), atomic.LoadInt64(&gstats.Unknown),
+						atomic.LoadInt64(&gstats.IntBlast), float64(atomic.LoadInt64(&gstats.Nanos))/1e9)
+					e.mu.Unlock()
+				}
+			}
+		}()
+	}
 	for w := 0; w < e.cfg.Workers; w++ {
 		wg.Add(1)
 		go func(w int) {
@@ -387,7 +408,7 @@ func (i *interpreter) decide(c *Term) bool {
 	var m1 map[string]uint64
 	if r1 == "" {
 		r.queries++
-		r1, m1 = i.solver.Check(c, cfg.FeasTimeoutMs, i.tt.vars)
+		r1, m1 = i.feas(c, cfg.FeasTimeoutMs)
 		if r1 == "unsat" {
 			r.trace = append(r.trace, decision{Kind: 'f', V: 0})
 			return false
@@ -396,7 +417,7 @@ func (i *interpreter) decide(c *Term) bool {
 	if r2 == "" {
 		r.queries++
 		var m2 map[string]uint64
-		r2, m2 = i.solver.Check(nc, cfg.FeasTimeoutMs, i.tt.vars)
+		r2, m2 = i.feas(nc, cfg.FeasTimeoutMs)
 		if r2 == "unsat" {
 			r.trace = append(r.trace, decision{Kind: 'f', V: 1})
 			return true
@@ -414,9 +435,30 @@ func (i *interpreter) decide(c *Term) bool {
 	return true
 }
 
+// feas decides feasibility of pc ∧ c; queries with hard arithmetic (in c or
+// already in the path condition) go to cvc5's integer encoding.
+func (i *interpreter) feas(c *Term, timeoutMs int) (string, map[string]uint64) {
+	if i.pcHard > 0 || hardArith(c, map[*Term]bool{}) {
+		if res, m, ok := i.solver.intMode(i.tt, c, time.Duration(timeoutMs)*time.Millisecond*2); ok && res != "unknown" {
+			return res, m
+		}
+		res, m := i.solver.intBlast(c, i.tt.vars, time.Duration(timeoutMs)*time.Millisecond*2)
+		if res != "unknown" {
+			return res, m
+		}
+	}
+	return i.solver.Check(c, timeoutMs, i.tt.vars)
+}
+
 // assertPC adds c to the path condition and keeps the cached model honest.
 func (i *interpreter) assertPC(c *Term) {
 	i.solver.Assert(c)
+	if hardArith(c, map[*Term]bool{}) {
+		i.pcHard++
+		if n := len(i.scopes); n > 0 {
+			i.scopeHard[n-1]++
+		}
+	}
 	if len(i.scopes) == 0 {
 		i.pcSet[c] = true
 	} else {
@@ -499,6 +541,7 @@ func (i *interpreter) concretize(t *Term, what string) uint64 {
 func (i *interpreter) scopeBegin() {
 	i.scopes = append(i.scopes, len(i.run.trace))
 	i.scopePC = append(i.scopePC, nil)
+	i.scopeHard = append(i.scopeHard, 0)
 	i.solver.Push()
 }
 
@@ -510,6 +553,8 @@ func (i *interpreter) scopeEnd() {
 	}
 	i.scopePC = i.scopePC[:len(i.scopePC)-1]
 	i.impliedCache = nil
+	i.pcHard -= i.scopeHard[len(i.scopeHard)-1]
+	i.scopeHard = i.scopeHard[:len(i.scopeHard)-1]
 	i.solver.Pop()
 	for _, d := range i.run.trace[start:] {
 		if (d.Kind == 'b' && d.V == 0) || (d.Kind == 'c' && d.V > 0) {
@@ -536,7 +581,7 @@ func (i *interpreter) assume(c *Term) {
 		// the cached model already satisfies c
 	} else {
 		r.queries++
-		res, m := i.solver.Check(c, i.ex.cfg.FeasTimeoutMs, i.tt.vars)
+		res, m := i.feas(c, i.ex.cfg.FeasTimeoutMs)
 		if res == "unsat" {
 			panic(pathEnd{"infeasible"})
 		}
@@ -618,7 +663,21 @@ func (i *interpreter) check(c value, label string) {
 		nc := i.tt.BNot(c)
 		vars := i.modelVars()
 		r.queries++
-		res, m := i.solver.Check(nc, i.ex.cfg.AssertTimeout, vars)
+		var res string
+		var m map[string]uint64
+		if i.pcHard > 0 || hardArith(nc, map[*Term]bool{}) {
+			// non-linear / division kernels: integer encodings first
+			var ok bool
+			res, m, ok = i.solver.intMode(i.tt, nc, 30*time.Second)
+			if !ok || res == "unknown" {
+				res, m = i.solver.intBlast(nc, vars, 30*time.Second)
+			}
+			if res == "unknown" {
+				res, m = i.solver.Check(nc, i.ex.cfg.AssertTimeout, vars)
+			}
+		} else {
+			res, m = i.solver.Check(nc, i.ex.cfg.AssertTimeout, vars)
+		}
 		if res == "unknown" {
 			res, m = i.solver.escalate(nc, vars)
 		}
